@@ -17,7 +17,13 @@ type VCSError struct {
 	Site      string
 	Retriable bool
 	NotFound  bool
+	// Cause, when set, is what the back end's error wraps (a transport error, say). The back end
+	// classifies by its own error, not by what lies beneath it.
+	Cause error
 }
+
+// Unwrap exposes the wrapped cause.
+func (e *VCSError) Unwrap() error { return e.Cause }
 
 func (e *VCSError) Error() string {
 	switch {
@@ -69,6 +75,8 @@ type SimVCS struct {
 	// Retain makes the back end keep the very slices it is handed as File.Contents (an in-memory
 	// back end may; the interface does not say who owns them) instead of copying them.
 	Retain bool
+	// WrapCause, when set, gives an injected failure the error it wraps (nil: nothing).
+	WrapCause func(retriable bool) error
 	// CommitRepr, when set, chooses what a successful TryCommit hands back for revision rev (the
 	// interface says `any`: a back end may well have nothing to tell, i.e. nil).
 	CommitRepr func(rev int) any
@@ -119,6 +127,9 @@ func (v *SimVCS) enter(site string, ws int, arg string) *VCSError {
 	if v.Decide != nil {
 		if d := v.Decide(site, ws); d.Fail {
 			err = &VCSError{Site: site, Retriable: d.Retriable}
+			if v.WrapCause != nil {
+				err.Cause = v.WrapCause(d.Retriable)
+			}
 			call.Err = err
 			kind := "vcs-permanent"
 			if d.Retriable {
